@@ -126,7 +126,12 @@ impl<'b> Ctx<'b> {
     }
 
     /// Record one observation line for the step at index `i` (0-based in steps).
-    fn record(&mut self, i: usize, sc: Option<&dyn ScopeOps>, mut o: serde_json::Map<String, Value>) {
+    fn record(&mut self, i: usize, sc: Option<&dyn ScopeOps>, o: serde_json::Map<String, Value>) {
+        let snap = sc.map(|sc| (sc.snapshot(), sc.min_align()));
+        self.record_snap(i, snap, o)
+    }
+
+    fn record_snap(&mut self, i: usize, snap: Option<(Snap, usize)>, mut o: serde_json::Map<String, Value>) {
         let step = &self.steps[i];
         let exp = &step["exp"];
         // liveness comes from the model: prune the block table to exp.live
@@ -162,8 +167,7 @@ impl<'b> Ctx<'b> {
             }
         }
         o.remove("_fresh");
-        if let Some(sc) = sc {
-            let snap = sc.snapshot();
+        if let Some((snap, min_align)) = snap {
             o.insert("chunks".into(), chunks_json(&snap.chunks));
             o.insert("cur".into(), json!(snap.cur));
             o.insert("stats".into(), json!(snap.stats));
@@ -180,7 +184,7 @@ impl<'b> Ctx<'b> {
             }
             o.insert("rev".into(), json!(snap.rev_ok));
             o.insert("claimed".into(), json!(snap.claimed));
-            o.insert("ma".into(), json!(sc.min_align()));
+            o.insert("ma".into(), json!(min_align));
         } else {
             o.insert("chunks".into(), json!([]));
             o.insert("cur".into(), json!(0));
@@ -387,6 +391,9 @@ pub fn exec(sc: &mut dyn ScopeOps, ctx: &mut Ctx<'_>) -> Flow {
                 let mut o = Ctx::obs(if r.is_ok() { "ok" } else { "panic" });
                 o.insert("entry".into(), entry_json(&entry));
                 ctx.record(i, Some(sc), o);
+            }
+            "enter" if s(&args, "kind") == "prep" => {
+                run_prep(sc, ctx);
             }
             "enter" => {
                 ctx.pc += 1;
@@ -687,4 +694,163 @@ pub fn run_root(make: &mut dyn FnMut(&Value) -> Option<Box<dyn BumpOps>>, ctx: &
     ctx.out.write_all(b"\n").unwrap();
     ctx.out.flush().unwrap();
     ctx.lines += 1;
+}
+
+/// An exclusive-borrow collection frame: enter(prep) ; prep_push* ; prep_commit | prep_drop.
+/// While the collection is alive the arena is mutably borrowed, so the frame is executed inline.
+fn run_prep(sc: &mut dyn ScopeOps, ctx: &mut Ctx<'_>) {
+    let i = ctx.pc;
+    ctx.pc += 1;
+    let args = ctx.steps[i]["args"].clone();
+    let (esz, eal, rev, c0) = (u(&args, "esz"), u(&args, "eal"), b(&args, "rev"), u(&args, "cap"));
+    let via = if ctx.variant == "dyn" { "dyn" } else { "typed" };
+    let before = sc.snapshot();
+    let ma = sc.min_align();
+    let echunks = Value::Array(before.chunks.iter().map(|c| json!([c.start, c.pos])).collect());
+    let ecur = before.cur;
+    let decorate = |o: &mut serde_json::Map<String, Value>, len: usize, cap: usize| {
+        o.insert("echunks".into(), echunks.clone());
+        o.insert("ecur".into(), json!(ecur));
+        o.insert("plen".into(), json!(len));
+        o.insert("pcap".into(), json!(cap));
+        o.insert("via".into(), json!(via));
+    };
+    region().fail_next.set(b(&args, "fail"));
+    // the collection mutably borrows the handle for as long as it lives; the handle is used again (for recording)
+    // only after the collection is gone -- expressed with a raw pointer because the borrow checker cannot follow
+    // the `Option` being emptied in the loop below
+    let scp: *mut (dyn ScopeOps + '_) = &mut *sc;
+    let made: Result<Result<Box<dyn PrepOps + '_>, ()>, ()> = Ok(unsafe { &mut *scp }.prep(esz, eal, rev, via, c0));
+    region().fail_next.set(false);
+    let mut coll: Option<Box<dyn PrepOps + '_>> = match made {
+        Ok(Ok(pb)) => {
+            let mut o = Ctx::obs("ok");
+            decorate(&mut o, pb.len(), pb.cap());
+            let snap = pb.snapshot();
+            ctx.record_snap(i, Some((snap, ma)), o);
+            Some(pb)
+        }
+        Ok(Err(())) => None,
+        Err(_) => None,
+    };
+    let failed_at_entry = coll.is_none();
+    let mut pending_entry_record = failed_at_entry;
+    let mut pushed: Vec<u8> = Vec::new();
+    let mut result: Option<(usize, serde_json::Map<String, Value>)> = None;
+    if !failed_at_entry {
+        loop {
+            if ctx.pc >= ctx.steps.len() {
+                break;
+            }
+            let j = ctx.pc;
+            let a = s(&ctx.steps[j], "a").to_string();
+            let jargs = ctx.steps[j]["args"].clone();
+            match a.as_str() {
+                "prep_push" => {
+                    ctx.pc += 1;
+                    let pb = coll.as_mut().unwrap();
+                    let tag = 1 + ((pushed.len() * 7 + i * 13) % 250) as u8;
+                    region().fail_next.set(b(&jargs, "fail"));
+                    let r = catch_unwind(AssertUnwindSafe(|| pb.push(tag)));
+                    region().fail_next.set(false);
+                    let mut o = match r {
+                        Ok(Ok(())) => {
+                            pushed.push(tag);
+                            Ctx::obs("ok")
+                        }
+                        Ok(Err(())) => Ctx::obs("err"),
+                        Err(e) => {
+                            let mut o = Ctx::obs("panic");
+                            o.insert("msg".into(), json!(panic_msg(&e)));
+                            o
+                        }
+                    };
+                    decorate(&mut o, pb.len(), pb.cap());
+                    let snap = pb.snapshot();
+                    ctx.record_snap(j, Some((snap, ma)), o);
+                }
+                "prep_commit" => {
+                    ctx.pc += 1;
+                    let pb = coll.take().unwrap();
+                    let r = catch_unwind(AssertUnwindSafe(move || pb.commit()));
+                    let mut o = match r {
+                        Ok((addr, len, bytes)) => {
+                            let mut o = Ctx::obs("ok");
+                            o.insert("addr".into(), json!(addr));
+                            o.insert("len".into(), json!(len * esz));
+                            // exactly the pushed elements: in push order, reversed for the rev collection
+                            let mut expect: Vec<u8> = Vec::new();
+                            let order: Vec<u8> = if rev { pushed.iter().rev().cloned().collect() } else { pushed.clone() };
+                            for t in order {
+                                expect.extend(std::iter::repeat(t).take(esz));
+                            }
+                            o.insert("content_ok".into(), json!(bytes == expect && len == pushed.len()));
+                            let id = u(&jargs, "id") as u64;
+                            if id != 0 {
+                                ctx.blocks.insert(id, Blk { addr, sz: len * esz, al: eal, generation: 0 });
+                                o.insert("_fresh".into(), json!(id));
+                            }
+                            o
+                        }
+                        Err(e) => {
+                            let mut o = Ctx::obs("panic");
+                            o.insert("msg".into(), json!(panic_msg(&e)));
+                            o
+                        }
+                    };
+                    decorate(&mut o, pushed.len(), 0);
+                    result = Some((j, o));
+                    break;
+                }
+                "prep_drop" => {
+                    ctx.pc += 1;
+                    let pb = coll.take().unwrap();
+                    let unwind = s(&jargs, "how") == "unwind";
+                    let r = catch_unwind(AssertUnwindSafe(move || {
+                        let _keep = pb;
+                        if unwind {
+                            std::panic::panic_any(UnwindMarker);
+                        }
+                    }));
+                    let ok = match &r {
+                        Ok(()) => !unwind,
+                        Err(e) => unwind && e.downcast_ref::<UnwindMarker>().is_some(),
+                    };
+                    let mut o = Ctx::obs(if ok { "ok" } else { "panic" });
+                    decorate(&mut o, pushed.len(), 0);
+                    result = Some((j, o));
+                    break;
+                }
+                _ => break, // behaviour ends inside the frame (bound reached): the collection is simply dropped
+            }
+        }
+    }
+    drop(coll);
+    let sc: &dyn ScopeOps = unsafe { &*scp };
+    if pending_entry_record {
+        // creation failed: no collection exists; the frame is closed by the next prep_commit / prep_drop step
+        let mut o = Ctx::obs("err");
+        decorate(&mut o, 0, 0);
+        ctx.record(i, Some(sc), o);
+        pending_entry_record = false;
+        if ctx.pc < ctx.steps.len() {
+            let j = ctx.pc;
+            let a = s(&ctx.steps[j], "a").to_string();
+            if a == "prep_commit" || a == "prep_drop" {
+                ctx.pc += 1;
+                let mut o = Ctx::obs("ok");
+                if a == "prep_commit" {
+                    o.insert("addr".into(), json!(0));
+                    o.insert("len".into(), json!(0));
+                    o.insert("content_ok".into(), json!(true));
+                }
+                decorate(&mut o, 0, 0);
+                ctx.record(j, Some(sc), o);
+            }
+        }
+    }
+    let _ = pending_entry_record;
+    if let Some((j, o)) = result {
+        ctx.record(j, Some(sc), o);
+    }
 }
